@@ -304,6 +304,23 @@ func runWorldB(rc *RunCtx, prop string) *RunResult {
 
 	allTypes := []operation.Type{operation.TypeCreate, operation.TypeUpdate, operation.TypeRecover, operation.TypeDeactivate}
 
+	// the unpublished store may be configured for a subset of the operation types
+	if w.useUnpub && T.Draw(2, "cfg.unpub.subset") == 0 {
+		var sub []operation.Type
+
+		for _, t := range allTypes {
+			if T.Draw(2, "cfg.unpub.type") == 0 {
+				sub = append(sub, t)
+			}
+		}
+
+		if len(sub) == 0 {
+			sub = []operation.Type{operation.TypeUpdate}
+		}
+
+		allTypes = sub
+	}
+
 	var genesis []uint64
 
 	for i := 0; i < nVersions; i++ {
@@ -1803,6 +1820,36 @@ func (w *bWorld) externalChecks(d *bDID, st *refmodel.State) {
 		w.fail("C20", "end-to-end/external-document", fmt.Sprintf("did%d: external document has keys %v services %v, reference state has keys %v services %v", d.Idx, gotKeys, gotSvcs, wantKeys, wantSvcs))
 
 		return
+	}
+
+	// every key is referenced from exactly the relationship sections its purposes name (in key order)
+	for _, section := range []string{"authentication", "assertionMethod", "keyAgreement", "capabilityDelegation", "capabilityInvocation"} {
+		var want, got []string
+
+		for _, e := range st.Doc.Keys {
+			for _, pu := range workload.KeyPurposes(e.ID, e.Mark) {
+				if pu == section {
+					want = append(want, "#"+e.ID)
+				}
+			}
+		}
+
+		if l, ok := doc[section].([]interface{}); ok {
+			for _, e := range l {
+				if ref, ok := e.(string); ok {
+					got = append(got, strings.TrimPrefix(ref, did))
+				} else if em, ok := e.(map[string]interface{}); ok {
+					id, _ := em["id"].(string)
+					got = append(got, strings.TrimPrefix(id, did))
+				}
+			}
+		}
+
+		if fmt.Sprint(got) != fmt.Sprint(want) {
+			w.fail("C20", "end-to-end/external-relationships", fmt.Sprintf("did%d: section %s of the external document references %v, the reference state's key purposes give %v", d.Idx, section, got, want))
+
+			return
+		}
 	}
 
 	// create response vs long form vs short form: only meaningful while the DID is still in its created state
